@@ -37,6 +37,7 @@ DEFAULT_PROFILE = dict(
   props=None,           # restrict the properties used (None = all 36)
   edges=True,           # tts:position with right/bottom edges
   exotic_numbers=True,  # floats / Fractions as numeric values
+  extreme_numbers=False,  # also numeric values below 1e-4 and above 1e6
   arbitrary_times=True,
   max_depth=5,
   fanout=3,
@@ -77,8 +78,12 @@ def numbers(prof, lo=0, hi=100):
   base = st.sampled_from([0, 1, 2, 10, 50, 100, 0.5, 12.5, 33, 80, 5, 25, 150])
   if not prof["exotic_numbers"]:
     return base
-  return st.one_of(base, base, st.integers(lo, hi), st.floats(max(lo, 0.0078125), hi, allow_nan=False, allow_infinity=False, width=32).map(float),
-                   st.fractions(lo, hi, max_denominator=12))
+  pool = [base, base, st.integers(lo, hi), st.floats(max(lo, 0.0078125), hi, allow_nan=False, allow_infinity=False, width=32).map(float),
+          st.fractions(lo, hi, max_denominator=12)]
+  if prof["extreme_numbers"]:
+    # magnitudes that '%g' prints with an exponent
+    pool.append(st.sampled_from([0.00001, 0.00002, 1234567, 2500000.5]))
+  return st.one_of(*pool)
 
 
 def lengths(prof, units):
